@@ -5,7 +5,17 @@ V = os.path.dirname(os.path.dirname(os.path.abspath(__file__)))
 sys.path.insert(0, V)
 ALL = [f"C{i:02d}" for i in range(1, 19)]
 
+CODEC_NOTE = "Trusted: the reference interpreter odxmodel/refodx.py (appendix C of DESIGN.md) and the ODX emitter; constructs outside the envelope are skipped and counted as dont_care. Wider than 12-bit value domains are covered by boundary alphabets; programs deeper than 4 parameters / nesting deeper than structure-in-structure are outside the bound."
 CHECKS = {
+ "C01": dict(cat="model_checking", tech="exhaustive enumeration of the codec program space (atomic types + breadth-first parameter sequences to depth 3/4) x value alphabets on the real encoder/decoder; independent reference interpreter supplies complete(v)",
+   text="Every program of the shared codec space (layer A: 7 integer kinds x 1..64 bits x 3 byte orders x 8 bit positions, masks, floats, strings, MIN-MAX, LEADING-LENGTH, PARAM-LENGTH; layer C: all parameter sequences to depth 2 over 34 templates x 3 position modes, depth 3 over 15, depth 4 over 6) is emitted as ODX XML, loaded by the real loader and run with all values of small domains / boundary sets: decode(encode(v)) must equal the completed assignment computed by the reference interpreter and consume the whole PDU.",
+   note=CODEC_NOTE, ref="4, 5/C01"),
+ "C02": dict(cat="model_checking", tech="exhaustive enumeration of the codec program space x values, byte-for-byte comparison with an independent bit-level ODX interpreter, on both bitstruct backends (second process with bitstruct.c unimportable)",
+   text="For every program and every assignment the reference accepts: identical PDU bytes, identical decode of the reference-built PDU, overlap warning iff the reference sees a bit claimed twice (dedicated overlap programs included); the complete exploration is repeated with the pure-Python bit-packing backend.",
+   note=CODEC_NOTE, ref="4, 5/C02"),
+ "C04": dict(cat="model_checking", tech="exhaustive enumeration of valid and invalid value assignments (all of [-2^n, 2^(n+1)] for small n, boundary sets, wrong types, every single-fault neighbour of valid assignments of composed programs) on the real encoder, both backends",
+   text="For every assignment the encoder either raises an odxtools OdxError subclass or returns a PDU that decodes back to the requested values; any foreign exception type or silent wrap/truncate/pad/drop is a violation.",
+   note=CODEC_NOTE + " Out-of-mask values of BIT-MASK types, values for RESERVED parameters, extra members of environment-data dictionaries are outside the property's envelope.", ref="4, 5/C04"),
  "C12": dict(cat="model_checking", tech="exhaustive enumeration of (length x frame size x padding) + explicit-state BFS over all frame interleavings of up to 3 CAN IDs on the real IsoTpStateMachine, reference ISO 15765-2 segmenter as oracle",
    text="Every telegram length 1..4095 (quick: 1..300 + all segment boundaries) x 8 classic/FD frame sizes x 4 padding modes is segmented by an independent reference segmenter and fed to the real reassembler; all interleavings of the frame scripts of 2-3 IDs (SF, FF+1CF, FF+2CF, FF+17CF with sequence-number wrap, two telegrams per ID) with flow-control and foreign-ID frames insertable at every point are explored as a state graph whose canonical state includes the real object's per-ID buffers, with the safety oracle 'reported == sent so far' in every state; both candump text formats and the active decoder's flow-control answers are checked on the same streams.",
    note="Trusted: the reference segmenter (normal addressing, 12-bit FF length). Not driven: the socket branch of read_telegrams. More than 3 concurrent IDs / more than 3 telegrams per ID are outside the bound.", ref="5/C12"),
